@@ -1,6 +1,211 @@
-From OV.C24 Require Import Model Spec.
-From Coq Require Import List NArith.
+(* C24 — JSON dump and parse round-trip every value.  Statements only; proofs are in Proofs.v /
+   PDet.v.  Vocabulary: Model.v (dump, parse, json_eq = json::operator==, json_hash) and Spec.v
+   (wf, json_same, ints_fit, reparsed, sci_shape).
+
+   Floats are abstract: every theorem below holds for every type F32/F64 and every printer/reader
+   pair that satisfies the four hypotheses spelled out in the statements (printed text has the
+   shape [-]d.ddd…e[+-]dd…, reading a printed finite value gives it back, bit equality is reflexive).
+
+   The model's `ke` flag is `true` for the repaired json::dumpToString (object keys escaped like
+   string values: fixes/C24-1.patch); `false` is the pinned source and is refuted below. *)
+From Coq Require Import List NArith ZArith Bool.
+From OV.C24 Require Import Model Spec PBytes PNum PLoad Proofs PDet.
 Import ListNotations.
-Example placeholder : is_ws 32%N = true.
-Proof. reflexivity. Qed.
-Print Assumptions placeholder.
+Local Open Scope Z_scope.
+
+Section Statements.
+  Variables F32 F64 : Type.
+  Variable print32 : F32 -> bytes.
+  Variable print64 : F64 -> bytes.
+  Variable parse32 : bytes -> F32.
+  Variable parse64 : bytes -> F64.
+  Variable eq32 : F32 -> F32 -> bool.
+  Variable eq64 : F64 -> F64 -> bool.
+  Variable fin32 : F32 -> bool.
+  Variable fin64 : F64 -> bool.
+  Hypothesis print32_shape : forall x, fin32 x = true -> sci_shape (print32 x) = true.
+  Hypothesis print64_shape : forall x, fin64 x = true -> sci_shape (print64 x) = true.
+  Hypothesis parse32_print32 : forall x, fin32 x = true -> parse32 (print32 x ++ [102%N]) = x.
+  Hypothesis parse64_print64 : forall x, fin64 x = true -> parse64 (print64 x) = x.
+  Hypothesis eq32_refl : forall x, eq32 x x = true.
+  Hypothesis eq64_refl : forall x, eq64 x x = true.
+
+  Notation json := (json F32 F64).
+  Notation dump_top := (dump_top F32 F64 print32 print64).
+  Notation dump := (dump F32 F64 print32 print64).
+  Notation parse := (parse F32 F64 parse32 parse64).
+  Notation load := (load F32 F64 parse32 parse64).
+  Notation json_eq := (json_eq F32 F64 eq32 eq64).
+  Notation json_same := (json_same F32 F64 eq32 eq64).
+  Notation wf := (wf F32 F64 fin32 fin64).
+  Notation reparsed := (reparsed F32 F64 print32 print64).
+
+  (* MAIN: for every well-formed value (no `none` node, numbers built through the API, finite and in
+     range, no NUL byte, non-empty keys, std::map order) and every indentation, parsing the dump
+     succeeds and yields a value equal to the original under json::operator==. *)
+  Theorem parse_dump_roundtrip : forall (indent : Z) (v : json), wf v = true ->
+    exists v', parse (dump_top true indent v) = Some v' /\ json_eq v' v = Some true.
+  Proof.
+    intros indent v H. exists (reparsed v). split.
+    - unfold Model.parse.
+      now rewrite (parse_dump_exact F32 F64 print32 print64 parse32 parse64 fin32 fin64
+                     print32_shape print64_shape parse32_print32 parse64_print64 indent v H).
+    - exact (reparsed_eq F32 F64 print32 print64 eq32 eq64 fin32 fin64 eq32_refl eq64_refl v H).
+  Qed.
+
+  (* the value obtained is exactly `reparsed v` (same tree; numbers carry their printed text as
+     source, small integer types come back as int32, 64-bit ones as int64) and the whole text up to
+     the terminating NUL is consumed *)
+  Theorem parse_dump_exact : forall (indent : Z) (v : json), wf v = true ->
+    parse_at F32 F64 parse32 parse64 (dump_top true indent v) = Ok (reparsed v) [0%N].
+  Proof.
+    exact (parse_dump_exact F32 F64 print32 print64 parse32 parse64 fin32 fin64
+             print32_shape print64_shape parse32_print32 parse64_print64).
+  Qed.
+
+  (* the fuel argument: twice the number of nodes suffices, wherever the dump stands (any white
+     space before it, any indentation strings made of white space, any text after it that starts
+     with NUL , ] } or white space) *)
+  Theorem load_dump_fuel : forall ind, all_ws ind -> forall v, wf v = true ->
+    forall fuel, (2 * jsize v <= fuel)%nat ->
+    forall before cur after, all_ws before -> all_ws cur -> stopr after ->
+      load fuel (before ++ dump true ind cur v ++ after) = Ok (reparsed v) after.
+  Proof.
+    exact (load_dump F32 F64 print32 print64 parse32 parse64 fin32 fin64
+             print32_shape print64_shape parse32_print32 parse64_print64).
+  Qed.
+
+  (* Mathematical equality (same integers as elements of Z, not only up to the conversion that
+     operator== performs).  FULL STATEMENT (false, see same_refuted below):
+        forall indent v, wf v = true -> exists v', parse (dump_top true indent v) = Some v' /\ json_same v' v = true
+     What is missing: uint32 values above INT32_MAX and uint64 values above INT64_MAX are printed as
+     plain decimal literals, which primitive::load types as int32 / int64 (known finding
+     unsigned_above_signed_max).  Proved under the exact guard `ints_fit`: *)
+  Theorem parse_dump_same_partial : forall (indent : Z) (v : json), wf v = true -> ints_fit F32 F64 v = true ->
+    exists v', parse (dump_top true indent v) = Some v' /\ json_same v' v = true.
+  Proof.
+    intros indent v H Hfit. exists (reparsed v). split.
+    - unfold Model.parse.
+      now rewrite (Proofs.parse_dump_exact F32 F64 print32 print64 parse32 parse64 fin32 fin64
+                     print32_shape print64_shape parse32_print32 parse64_print64 indent v H).
+    - exact (reparsed_same F32 F64 print32 print64 eq32 eq64 fin32 fin64 eq32_refl eq64_refl v H Hfit).
+  Qed.
+
+  (* Determinism: an object is determined by the finite map its insertions denote (last binding of
+     each key), so two insertion histories with the same bindings give the same dump for every
+     indentation, and the same hash for every hash function (json::hash = hash of the compact dump). *)
+  Theorem dump_deterministic : forall (l1 l2 : list (bytes * json)),
+    (forall k, assoc_last F32 F64 k l1 = assoc_last F32 F64 k l2) ->
+    forall ke ind cur,
+      dump ke ind cur (JObj (obj_of_list F32 F64 l1)) = dump ke ind cur (JObj (obj_of_list F32 F64 l2)) /\
+      forall (H : Type) (hash : bytes -> H),
+        json_hash F32 F64 print32 print64 hash ke (JObj (obj_of_list F32 F64 l1))
+        = json_hash F32 F64 print32 print64 hash ke (JObj (obj_of_list F32 F64 l2)).
+  Proof.
+    intros l1 l2 H ke ind cur. rewrite (obj_of_list_canonical F32 F64 l1 l2 H). split; reflexivity.
+  Qed.
+
+  (* whatever the insertions, the object is in std::map order (the `keys_sorted` part of wf) *)
+  Theorem obj_of_list_sorted : forall (l : list (bytes * json)), keys_sorted F32 F64 (obj_of_list F32 F64 l) = true.
+  Proof. exact (obj_of_list_sorted F32 F64). Qed.
+
+End Statements.
+
+Print Assumptions parse_dump_roundtrip.
+Print Assumptions parse_dump_exact.
+Print Assumptions load_dump_fuel.
+Print Assumptions parse_dump_same_partial.
+Print Assumptions dump_deterministic.
+Print Assumptions obj_of_list_sorted.
+
+(* ================================================================== witnesses and non-vacuity *)
+(* A toy float interface (two values per type) that satisfies the hypotheses: they are consistent. *)
+Definition tprint (b : bool) : bytes :=
+  if b then [49; 46; 53; 101; 43; 48; 48]%N (* 1.5e+00 *) else [45; 50; 46; 48; 101; 45; 48; 51]%N (* -2.0e-03 *).
+Definition tparse (t : bytes) : bool := match t with 49%N :: _ => true | _ => false end.
+Definition tfin (b : bool) : bool := true.
+
+Example float_interface_inhabited :
+  (forall x, tfin x = true -> sci_shape (tprint x) = true) /\
+  (forall x, tfin x = true -> tparse (tprint x ++ [102%N]) = x) /\
+  (forall x, tfin x = true -> tparse (tprint x) = x) /\
+  (forall x, Bool.eqb x x = true).
+Proof. repeat split; intros []; vm_compute; reflexivity. Qed.
+
+Notation tjson := (json bool bool).
+Definition tdump := dump_top bool bool tprint tprint.
+Definition tparse_json := parse bool bool tparse tparse.
+Definition twf := wf bool bool tfin tfin.
+Definition teq := json_eq bool bool Bool.eqb Bool.eqb.
+Definition tsame := json_same bool bool Bool.eqb Bool.eqb.
+
+(* a value that exercises every case of the proof: nesting, escapes in a key and in a string, every
+   integer width, both float widths, booleans, null, empty containers *)
+Definition sample : tjson :=
+  JObj [ ([34; 92]%N (* key: quote backslash *), JArr [JNum (PInt KU64 18446744073709551615) []; JNum (PInt KI64 (-9223372036854775808)) [];
+                                   JNum (PInt KI8 (-128)) []; JNum (PInt KU8 200) []; JNum (PInt KI32 0) []]);
+         ([97]%N, JStr [10; 34; 92; 9; 255; 1]%N);
+         ([98]%N, JArr [JNum (PF32 true) []; JNum (PF64 false) []; JNum (PInt KBool 1) []; JNull; JArr []; JObj []]) ].
+
+Example sample_wf : twf sample = true.
+Proof. vm_compute; reflexivity. Qed.
+
+Example sample_roundtrip :
+  exists v', tparse_json (tdump true 2 sample) = Some v' /\ teq v' sample = Some true.
+Proof. eexists; split; vm_compute; reflexivity. Qed.
+
+(* ---- the pinned source (keys not escaped) violates the property: DESIGN section 8 #27 *)
+Definition key_quote : tjson := JObj [ ([97; 34; 98]%N, JNum (PInt KI32 1) []) ].      (* key a"b *)
+Definition key_backslash : tjson := JObj [ ([97; 92; 98]%N, JNum (PInt KI32 1) []) ].  (* key a\b *)
+
+Theorem key_escape_refuted :
+  twf key_quote = true /\ tparse_json (tdump false 2 key_quote) = None /\
+  twf key_backslash = true /\
+  exists v', tparse_json (tdump false 2 key_backslash) = Some v' /\ teq v' key_backslash = Some false.
+Proof. split; [vm_compute; reflexivity|]. split; [vm_compute; reflexivity|]. split; [vm_compute; reflexivity|]. eexists; split; vm_compute; reflexivity. Qed.
+
+(* with the repair the same values round-trip (instances of parse_dump_roundtrip) *)
+Example key_escape_repaired :
+  (exists v', tparse_json (tdump true 2 key_quote) = Some v' /\ teq v' key_quote = Some true) /\
+  (exists v', tparse_json (tdump true 2 key_backslash) = Some v' /\ teq v' key_backslash = Some true).
+Proof. split; eexists; split; vm_compute; reflexivity. Qed.
+
+(* ---- a number that was parsed and then assigned a scalar: the pinned primitive::operator=(T) keeps
+   the old source text, so the dump shows the old number (fixes/C24-2.patch clears it) *)
+Definition parsed_5L : tjson := JNum (PInt KI64 5) [53; 76]%N.
+Theorem stale_source_refuted :
+  let v := json_assign_scalar bool bool true parsed_5L (PInt KI32 7) in
+  tdump true 2 v = [53; 76]%N /\
+  exists v', tparse_json (tdump true 2 v) = Some v' /\ teq v' v = Some false.
+Proof. split; [vm_compute; reflexivity|]. eexists; split; vm_compute; reflexivity. Qed.
+
+Example assign_scalar_repaired :
+  let v := json_assign_scalar bool bool false parsed_5L (PInt KI32 7) in
+  twf v = true /\ tdump true 2 v = [55]%N.
+Proof. split; vm_compute; reflexivity. Qed.
+
+(* ---- outside wf, recorded as known findings *)
+(* a NUL byte in a string: the dump contains it raw, the C-string parser stops there *)
+Theorem nul_byte_refuted : tparse_json (tdump true 0 (JStr [97; 0; 98]%N)) = None.
+Proof. vm_compute; reflexivity. Qed.
+
+(* the empty key *)
+Theorem empty_key_refuted : tparse_json (tdump true 0 (JObj [ ([], JNull) ])) = None.
+Proof. vm_compute; reflexivity. Qed.
+
+(* unsigned above the signed maximum: operator== says equal, the integers differ *)
+Theorem same_refuted :
+  let v : tjson := JNum (PInt KU32 4000000000) [] in
+  twf v = true /\
+  exists v', tparse_json (tdump true 0 v) = Some v' /\ teq v' v = Some true /\ tsame v' v = false /\
+             v' = JNum (PInt KI32 (-294967296)) [52; 48; 48; 48; 48; 48; 48; 48; 48; 48]%N.
+Proof. split; [vm_compute; reflexivity|]. eexists; repeat split; vm_compute; reflexivity. Qed.
+
+(* an uninitialised (none) entry is printed as {} and comes back as an empty object *)
+Example none_not_in_domain :
+  tparse_json (tdump true 0 (JObj [ ([107]%N, JNone) ])) = Some (JObj [ ([107]%N, JObj []) ]).
+Proof. vm_compute; reflexivity. Qed.
+
+Print Assumptions key_escape_refuted.
+Print Assumptions stale_source_refuted.
+Print Assumptions same_refuted.
